@@ -560,11 +560,31 @@ def explicit_config_wins(ctx):
         # the values this return can hand out, each with the node that selects it
         results = []
         if isinstance(r.value, ast.Name):
-            for d in rd.reaching(r.value.id, rn):
-                if d.kind == "assign" and d.value is not None:
-                    results.append((d.value, d.node, d.stmt if d.stmt is not None else r))
+            loop = None
+            par = ctx.prog.parent.get(r)
+            while par is not None and par is not fn.node:
+                if isinstance(par, ast.For) and isinstance(par.target, ast.Name) and par.target.id == r.value.id:
+                    loop = par
+                    break
+                par = ctx.prog.parent.get(par)
+            if loop is not None and isinstance(loop.iter, ast.Name):
+                # for c in candidates: ... return c - the candidates are what each definition of the list holds, each judged
+                # where the list is made
+                ldefs = rd.reaching(loop.iter.id, g.of[loop])
+                if ldefs and all(d.kind == "assign" and isinstance(d.value, (ast.List, ast.Tuple)) for d in ldefs):
+                    for d in ldefs:
+                        if d.value.elts and all(is_explicit(e_) for e_ in d.value.elts):
+                            continue
+                        results.append((d.value, d.node, d.stmt if d.stmt is not None else r))
                 else:
-                    results.append((r.value, rn, r))      # a loop variable, a parameter: judged where it is returned
+                    ctx.undecided("C20.8", fn, "the locator returns an element of `%s`; what that list holds was not followed" % loop.iter.id, r)
+                    continue
+            else:
+                for d in rd.reaching(r.value.id, rn):
+                    if d.kind == "assign" and d.value is not None:
+                        results.append((d.value, d.node, d.stmt if d.stmt is not None else r))
+                    else:
+                        results.append((r.value, rn, r))      # a loop variable, a parameter: judged where it is returned
         elif is_explicit(r.value):
             continue
         elif isinstance(r.value, (ast.Attribute, ast.Call, ast.BinOp, ast.Subscript, ast.JoinedStr)):
